@@ -285,4 +285,47 @@ def scheduleLoop (links : List Link) : List String → List Nat → List (String
 def schedule (links : List Link) (comps : List String) : List (String × List Nat) :=
   scheduleLoop links comps []
 
+/-! ### decidable classes of link sets (hypotheses of the nested-key theorems in Props/C16) -/
+
+/-- hypothesis of the component-order theorem over nested keys (decidable): a key of the link graph that matches a
+    component consuming link `l`'s target — and so can pull that component forward in `reorder` — is `l`'s own
+    target node, or the target node of some link that CONTAINS it (a shallower target node that is a dotted-part
+    prefix: the second loop of `instantiation_order` then orders it after the nested one).  What this excludes is a key
+    that is only a SOURCE and contains the target: findings C16-nested-target-in-source / C16-containment-cycle-accepted. -/
+def NestedKeysOK (links : List Link) (setOrder dests : List String) : Prop :=
+  ∀ l ∈ links, ∀ c ∈ dests, feeds c l.target = true →
+    ∀ k ∈ (build (instantiationEdges links setOrder)).nodes, keyMatches k c = true →
+      k = targetNode l.target ∨
+      (k ∈ setOrder ∧ targetNode l.target ∈ setOrder ∧ k ∈ prefixesOf (targetNode l.target) ∧
+        depth k < depth (targetNode l.target))
+
+instance (links : List Link) (setOrder dests : List String) : Decidable (NestedKeysOK links setOrder dests) := by
+  unfold NestedKeysOK; infer_instance
+
+/-- containment among the keys of the link graph: the object named by `t` lies inside the object named by `k`, so it is
+    constructed first (`t --> k`) -/
+def containmentEdges (nodes : List String) : List (String × String) :=
+  nodes.flatMap fun t => (nodes.filter fun k => keyMatches k t && k != t).map fun k => (t, k)
+
+/-- link edges, shared-prefix edges and ALL containment edges: the real construction dependencies between the keys -/
+def fullEdges (links : List Link) (setOrder : List String) : List (String × String) :=
+  instantiationEdges links setOrder ++ containmentEdges (build (instantiationEdges links setOrder)).nodes
+
+/-- every containment between two keys is an edge `instantiation_order` adds itself (true when the containing key is a
+    target: shared-prefix edge; false exactly when a key that is only a SOURCE contains another key —
+    C16-containment-cycle-accepted — or a source is nested in another key — C16-nested-source-after-enclosing-group) -/
+def ContainmentCovered (links : List Link) (setOrder : List String) : Prop :=
+  ∀ e ∈ containmentEdges (build (instantiationEdges links setOrder)).nodes, e ∈ instantiationEdges links setOrder
+
+instance (links : List Link) (setOrder : List String) : Decidable (ContainmentCovered links setOrder) := by
+  unfold ContainmentCovered; infer_instance
+
+/-- every link source is a top-level component: no OTHER component contains it (decidable).  Outside this class no
+    constructor call of another component can replace the source's entry in cfg before a consumer reads it. -/
+def SourcesTopLevel (links : List Link) (dests : List String) : Prop :=
+  ∀ l ∈ links, ∀ s ∈ l.sources, ∀ c ∈ dests, keyMatches c s = true → c = s
+
+instance (links : List Link) (dests : List String) : Decidable (SourcesTopLevel links dests) := by
+  unfold SourcesTopLevel; infer_instance
+
 end Jap.Graph
